@@ -129,14 +129,20 @@ func (g *scenGen) groundBody(q Rule) []Pred {
 
 func queriesOf(a AuthCase) []Rule {
 	var qs []Rule
-	for _, o := range a.Ops {
-		switch o.K {
-		case "addcheck":
-			qs = append(qs, o.Check.Queries...)
-		case "addpolicy":
-			qs = append(qs, o.Policy.Queries...)
+	var walk func(ops []AuthOp)
+	walk = func(ops []AuthOp) {
+		for _, o := range ops {
+			switch o.K {
+			case "addcheck":
+				qs = append(qs, o.Check.Queries...)
+			case "addpolicy":
+				qs = append(qs, o.Policy.Queries...)
+			case "load":
+				walk(o.Sub)
+			}
 		}
 	}
+	walk(a.Ops)
 	for _, t := range a.Tokens {
 		for _, b := range t {
 			for _, ck := range b.Checks {
@@ -272,6 +278,7 @@ func runC02(c *Ctx) {
 	}
 	undeclaredSymbols(c)
 	undeclaredInMemory(c)
+	gateStream(c)
 	for i := 0; i < n; i++ {
 		g := newScenGen(r, r.Intn(3))
 		a := baseCase(g, r.Intn(3))
@@ -279,6 +286,12 @@ func runC02(c *Ctx) {
 		b := g.adversarialBlock(a)
 		ab := a
 		ab.Tokens = [][]Block{append(append([]Block{}, a.Tokens[0]...), b)}
+		if r.Chance(1, 4) {
+			// the verifier's configuration is not typed in but loaded (LoadPolicies) from a
+			// snapshot made once, elsewhere, and used for every token alike
+			a, ab = configLoaded(a), configLoaded(ab)
+			c.Count("configuration-loaded")
+		}
 		resT, sxT := emitAuth(c, "T", a)
 		resTB, sxTB := emitAuth(c, "TB", ab)
 		c.Count("T:" + verdictClass(resT))
@@ -310,6 +323,26 @@ func runC02(c *Ctx) {
 			c.Sample(map[string]string{"T": sxT, "T_go": resT, "TB": sxTB, "TB_go": resTB})
 		}
 	}
+}
+
+// configLoaded: the leading content operations of a case become one "load" of a snapshot
+// holding that content.
+func configLoaded(a AuthCase) AuthCase {
+	k := 0
+	for k < len(a.Ops) {
+		switch a.Ops[k].K {
+		case "addfact", "addrule", "addcheck", "addpolicy":
+			k++
+			continue
+		}
+		break
+	}
+	if k == 0 {
+		return a
+	}
+	b := a
+	b.Ops = append([]AuthOp{{K: "load", Sub: append([]AuthOp{}, a.Ops[:k]...)}}, a.Ops[k:]...)
+	return b
 }
 
 func filterIds(v string, drop func(id string) bool) string {
@@ -445,6 +478,34 @@ func runC03(c *Ctx) {
 			if len(p1) == 2 && len(p2) == 2 && p1[1] != p2[1] {
 				c.Violate("C03/query-sees-block", "inserting a check-free block changed an authorizer Query result",
 					map[string]interface{}{"verb": "AUTHSEQ", "case": sx2, "go": res2, "orig_case": sx1, "orig_go": res1, "position": pos})
+			}
+		}
+		if r.Chance(1, 3) {
+			// (c) the same authorizer is asked again after facts were added that the blocks'
+			// checks (and the other scopes') ask for: every block must see them, and only them
+			var more []AuthOp
+			for _, blk := range a.Tokens[0][1:] {
+				for _, ck := range blk.Checks {
+					for _, q := range ck.Queries {
+						if r.Chance(2, 3) {
+							for _, f := range g.groundBody(q) {
+								more = append(more, AuthOp{K: "addfact", Fact: f})
+							}
+						}
+					}
+				}
+			}
+			for _, f := range g.groundBody(q) {
+				more = append(more, AuthOp{K: "addfact", Fact: f})
+			}
+			twice := withOps(a, append(more, AuthOp{K: "authorize"}, AuthOp{K: "query", Rule: q})...)
+			// correspondence only: the library drops the authorizer's own rules at the end of
+			// Authorize (World.ResetRules before the block loop), so a second answer is not the
+			// answer of a new authorizer with the same content; the model follows the code
+			resT, sxT := emitAuth(c, "twice", twice)
+			if resT != "environment-timeout" {
+				c.Count("asked-twice")
+				c.NonTrivial(sxT)
 			}
 		}
 		if i < 2 {
@@ -860,12 +921,19 @@ func runC18(c *Ctx) {
 				}
 			}
 		}
-		// save after evaluation must be refused
-		if r.Chance(1, 4) {
-			dirty := AuthCase{MaxFacts: 1000, MaxIter: 100, Ctor: "for", Tokens: [][]Block{t0}, Ops: append(append([]AuthOp{}, content...), panel[0], AuthOp{K: "saveload", Tok: 0})}
+		// save after evaluation must be refused — whatever the evaluation's outcome: a run that
+		// stopped at a limit or on an error has been evaluated too (the world already holds
+		// the token's facts by then), under the default and under tight limits
+		if r.Chance(1, 3) {
+			dmf, dmi := mf, mi
+			if r.Chance(1, 3) {
+				dmf = 1 + r.Intn(3)
+			}
+			dirty := AuthCase{MaxFacts: dmf, MaxIter: dmi, Ctor: "for", Tokens: [][]Block{t0}, Ops: append(append([]AuthOp{}, content...), panel[0], AuthOp{K: "saveload", Tok: 0})}
 			resD, sxD := emitAuth(c, "dirty", dirty)
-			if !strings.HasSuffix(resD, "refused") && !strings.Contains(resD, "limit") && !strings.Contains(resD, "expr-error") && !strings.Contains(resD, "invalid-rule") && resD != "environment-timeout" {
-				c.Violate("C18/save-after-eval", "SerializePolicies succeeded on an evaluated authorizer: "+resD,
+			c.Count("save-after-eval:" + verdictClass(strings.SplitN(resD, " ", 2)[0]))
+			if !strings.HasSuffix(resD, "refused") && resD != "environment-timeout" && !strings.HasPrefix(resD, "panic") {
+				c.Violate("C18/save-after-eval", "SerializePolicies succeeded on an evaluated authorizer: "+trunc(resD, 120),
 					map[string]interface{}{"verb": "AUTHSEQ", "case": sxD, "go": resD})
 			}
 		}
